@@ -61,7 +61,7 @@ Definition out_len (b : zbuf) : nat := if out_mode b then length (pre b) else O.
 
 (* ---------- list helpers ---------- *)
 
-Fixpoint map_range {A} (f : A -> A) (s e : nat) (l : list A) : list A :=
+Fixpoint map_range {A} (f : A -> A) (s e : nat) (l : list A) {struct l} : list A :=
   match l with
   | [] => []
   | x :: t =>
